@@ -62,6 +62,32 @@ func topScanWF(intp *Interpreter) bool {
 //@   (forall k :: 0 <= k && k < len(intp.procStart) ==> 0 <= intp.procStart[k] && intp.procStart[k] <= len(intp.Stack)) &&
 //@   (forall k, l :: 0 <= k && k <= l && l < len(intp.procStart) ==> intp.procStart[k] <= intp.procStart[l])
 
+// ---- views used by the functional contracts ----
+
+// top(intp, k) is the k-th operand from the top of the operand stack.
+func top(intp *Interpreter, k int) Object {
+	return intp.Stack[len(intp.Stack)-1-k]
+}
+
+func depth(intp *Interpreter) int {
+	return len(intp.Stack)
+}
+
+// isPSErr: err is the PostScript error named tp.
+func isPSErr(err error, tp Name) bool {
+	e, ok := err.(*postScriptError)
+	return ok && e != nil && e.tp == tp
+}
+
+func isInt(o Object) bool {
+	_, ok := o.(Integer)
+	return ok
+}
+
+func asInt(o Object) Integer {
+	return o.(Integer)
+}
+
 //@ valueinv Object objWF zero-safe
 //@ valueinv Dict dictWF
 
@@ -74,6 +100,8 @@ func topScanWF(intp *Interpreter) bool {
 //@ ensures intpWF(intp) && topScanWF(intp)
 //@ ensures len(intp.errors) == old(len(intp.errors))
 //@ ensures len(intp.scanners) == old(len(intp.scanners)) && (forall i :: 0 <= i && i < len(intp.scanners) ==> intp.scanners[i] == old(intp.scanners[i]))
+//@ ensures [C11.frame] intp.execStackDepth == old(intp.execStackDepth) && intp.MaxOps == old(intp.MaxOps) && intp.CheckStart == old(intp.CheckStart)
+//@ ensures [C11.budget.ok] result == nil ==> (intp.MaxOps > 0 ==> intp.NumOps <= intp.MaxOps || intp.NumOps == old(intp.NumOps) || len(intp.procStart) > 0)
 
 //@ sweep C01 builtin.go interpreter.go scanner.go eexec.go cmap.go error.go -stackString -objectString -objectString2 -Error
 
@@ -96,20 +124,44 @@ func topScanWF(intp *Interpreter) bool {
 //@ ensures has(result, Name("errordict")) && isType(result[Name("errordict")], Dict) && result[Name("errordict")].(Dict) != nil
 //@ ensures has(result, Name("FontDirectory")) && isType(result[Name("FontDirectory")], Dict) && result[Name("FontDirectory")].(Dict) != nil
 
+//@ func (*Interpreter).e
+//@ ensures isPSErr(result, tp)
+
+//@ define eoFirstTrip(intp, obj, obj0, execProc, execProc0) = obj == obj0 && execProc == execProc0 && depth(intp) == old(depth(intp)) && intp.NumOps == old(intp.NumOps) && len(intp.procStart) == old(len(intp.procStart))
+//@ define eoBenign(intp, obj0) = old(depth(intp)) <= maxOperandStackDepth && !isBrace(obj0) && old(len(intp.procStart)) == 0 && !(intp.MaxOps > 0 && old(intp.NumOps) >= intp.MaxOps && old(intp.NumOps) < 9223372036854775807)
+//@ define budgetOK(intp) = intp.MaxOps > 0 ==> intp.NumOps <= intp.MaxOps || intp.NumOps == old(intp.NumOps) || len(intp.procStart) > 0
+
 //@ func (*Interpreter).executeOne
 //@ requires objWF0(obj) && topScanWF(intp)
 //@ ensures topScanWF(intp)
 //@ ensures len(intp.errors) == old(len(intp.errors))
 //@ ensures len(intp.scanners) == old(len(intp.scanners)) && (forall i :: 0 <= i && i < len(intp.scanners) ==> intp.scanners[i] == old(intp.scanners[i]))
+//@ ensures [C11.frame] intp.execStackDepth == old(intp.execStackDepth) && intp.MaxOps == old(intp.MaxOps) && intp.CheckStart == old(intp.CheckStart)
+//@ ensures [C11.execstack] execProc && old(intp.execStackDepth) >= 100 ==> isPSErr(result, eExecstackoverflow) && intp.NumOps == old(intp.NumOps) && depth(intp) == old(depth(intp))
+//@ ensures [C11.stackoverflow] !(execProc && old(intp.execStackDepth) >= 100) && old(depth(intp)) > maxOperandStackDepth ==> isPSErr(result, eStackoverflow) && intp.NumOps == old(intp.NumOps) && depth(intp) == old(depth(intp))
+//@ ensures [C11.budget.stop] !(execProc && old(intp.execStackDepth) >= 100) && old(depth(intp)) <= maxOperandStackDepth && !isBrace(obj) && old(len(intp.procStart)) == 0 && intp.MaxOps > 0 && old(intp.NumOps) >= intp.MaxOps && old(intp.NumOps) < 9223372036854775807 ==> result == ErrExecutionLimitExceeded && depth(intp) == old(depth(intp))
+//@ ensures [C11.budget.ok] result == nil ==> budgetOK(intp)
+//@ ensures [C11.deferred] !(execProc && old(intp.execStackDepth) >= 100) && old(depth(intp)) <= maxOperandStackDepth && !isBrace(obj) && old(len(intp.procStart)) > 0 ==> result == nil && intp.NumOps == old(intp.NumOps) && depth(intp) == old(depth(intp)) + 1 && len(intp.procStart) == old(len(intp.procStart))
 //@ loop 1 invariant objWF0(obj) && topScanWF(intp)
 //@ loop 1 invariant len(intp.errors) == old(len(intp.errors))
 //@ loop 1 invariant len(intp.scanners) == old(len(intp.scanners)) && (forall i :: 0 <= i && i < len(intp.scanners) ==> intp.scanners[i] == old(intp.scanners[i]))
+//@ loop 1 invariant [C11.frame] !(old(execProc) && old(intp.execStackDepth) >= 100) && intp.MaxOps == old(intp.MaxOps) && intp.CheckStart == old(intp.CheckStart)
+//@ loop 1 invariant [C11.frame] (old(execProc) ==> intp.execStackDepth == old(intp.execStackDepth) + 1) && (!old(execProc) ==> intp.execStackDepth == old(intp.execStackDepth))
+//@ loop 1 invariant [C11.budget] eoFirstTrip(intp, obj, old(obj), execProc, old(execProc)) || (objWF(obj) && eoBenign(intp, old(obj)) && budgetOK(intp))
 //@ loop 2 invariant topScanWF(intp)
 //@ loop 2 invariant len(intp.errors) == old(len(intp.errors))
 //@ loop 2 invariant len(intp.scanners) == old(len(intp.scanners)) && (forall i :: 0 <= i && i < len(intp.scanners) ==> intp.scanners[i] == old(intp.scanners[i]))
+//@ loop 2 invariant [C11.frame] !(old(execProc) && old(intp.execStackDepth) >= 100) && intp.MaxOps == old(intp.MaxOps) && intp.CheckStart == old(intp.CheckStart)
+//@ loop 2 invariant [C11.frame] (old(execProc) ==> intp.execStackDepth == old(intp.execStackDepth) + 1) && (!old(execProc) ==> intp.execStackDepth == old(intp.execStackDepth))
+//@ loop 2 invariant [C11.budget] eoBenign(intp, old(obj)) && budgetOK(intp)
 
 //@ func (*Interpreter).executeScanner
 //@ requires s != nil
+//@ ensures [C11.start.reject] old(intp.CheckStart) && intp.CheckStart ==> result != nil && intp.NumOps == old(intp.NumOps) && depth(intp) == old(depth(intp)) && len(intp.DictStack) == old(len(intp.DictStack))
+//@ ensures [C11.start.once] !old(intp.CheckStart) ==> !intp.CheckStart
+//@ ensures [C11.frame] intp.execStackDepth == old(intp.execStackDepth) && intp.MaxOps == old(intp.MaxOps)
+//@ loop 1 invariant [C11.frame] intp.execStackDepth == old(intp.execStackDepth) && intp.MaxOps == old(intp.MaxOps)
+//@ loop 1 invariant [C11.start.once] !intp.CheckStart
 //@ ensures len(intp.scanners) == old(len(intp.scanners)) && (forall i :: 0 <= i && i < len(intp.scanners) ==> intp.scanners[i] == old(intp.scanners[i]))
 //@ ensures len(intp.errors) == old(len(intp.errors))
 //@ loop 1 invariant len(intp.scanners) == old(len(intp.scanners)) + 1 && intp.scanners[len(intp.scanners)-1] == s
@@ -192,3 +244,29 @@ func topScanWF(intp *Interpreter) bool {
 //@ requires intp != nil && intp.cmapMappings != nil && 0 <= i && i < len(intp.cmapMappings.NotdefChars) && 0 <= j && j < len(intp.cmapMappings.NotdefChars)
 //@ func init$2$7
 //@ requires intp != nil && intp.cmapMappings != nil && 0 <= i && i < len(intp.cmapMappings.NotdefRanges) && 0 <= j && j < len(intp.cmapMappings.NotdefRanges)
+
+// ---------------------------------------------------------------------
+// C11: size limits and stack limits of individual operators
+
+//@ func bArray
+//@ ensures [C11.array.neg] old(depth(intp)) >= 1 && isInt(old(top(intp, 0))) && asInt(old(top(intp, 0))) < 0 ==> isPSErr(result, eRangecheck) && depth(intp) == old(depth(intp))
+//@ ensures [C11.array.limit] old(depth(intp)) >= 1 && isInt(old(top(intp, 0))) && asInt(old(top(intp, 0))) > 65536 ==> isPSErr(result, eLimitcheck) && depth(intp) == old(depth(intp))
+//@ ensures [C11.array.ok] old(depth(intp)) >= 1 && isInt(old(top(intp, 0))) && 0 <= asInt(old(top(intp, 0))) && asInt(old(top(intp, 0))) <= 65536 ==> result == nil && depth(intp) == old(depth(intp)) && isType(top(intp, 0), Array) && len(top(intp, 0).(Array)) == int(asInt(old(top(intp, 0))))
+
+//@ func bString
+//@ ensures [C11.string.neg] old(depth(intp)) >= 1 && isInt(old(top(intp, 0))) && asInt(old(top(intp, 0))) < 0 ==> isPSErr(result, eRangecheck) && depth(intp) == old(depth(intp))
+//@ ensures [C11.string.limit] old(depth(intp)) >= 1 && isInt(old(top(intp, 0))) && asInt(old(top(intp, 0))) > 65536 ==> isPSErr(result, eLimitcheck) && depth(intp) == old(depth(intp))
+//@ ensures [C11.string.ok] old(depth(intp)) >= 1 && isInt(old(top(intp, 0))) && 0 <= asInt(old(top(intp, 0))) && asInt(old(top(intp, 0))) <= 65536 ==> result == nil && depth(intp) == old(depth(intp)) && isType(top(intp, 0), String) && len(top(intp, 0).(String)) == int(asInt(old(top(intp, 0))))
+
+//@ func bDict
+//@ ensures [C11.dict.neg] old(depth(intp)) >= 1 && isInt(old(top(intp, 0))) && asInt(old(top(intp, 0))) < 0 ==> isPSErr(result, eRangecheck) && depth(intp) == old(depth(intp))
+//@ ensures [C11.dict.limit] old(depth(intp)) >= 1 && isInt(old(top(intp, 0))) && asInt(old(top(intp, 0))) > 65536 ==> isPSErr(result, eLimitcheck) && depth(intp) == old(depth(intp))
+//@ ensures [C11.dict.ok] old(depth(intp)) >= 1 && isInt(old(top(intp, 0))) && 0 <= asInt(old(top(intp, 0))) && asInt(old(top(intp, 0))) <= 65536 ==> result == nil && depth(intp) == old(depth(intp)) && isType(top(intp, 0), Dict) && len(top(intp, 0).(Dict)) == 0
+
+//@ func bBegin
+//@ ensures [C11.begin.overflow] old(depth(intp)) >= 1 && old(len(intp.DictStack)) >= maxDictStackDepth ==> isPSErr(result, eDictstackoverflow) && len(intp.DictStack) == old(len(intp.DictStack))
+//@ ensures [C11.begin.ok] result == nil ==> len(intp.DictStack) == old(len(intp.DictStack)) + 1 && len(intp.DictStack) <= maxDictStackDepth
+
+//@ func bEnd
+//@ ensures [C11.end.underflow] old(len(intp.DictStack)) <= 2 ==> isPSErr(result, eDictstackunderflow) && len(intp.DictStack) == old(len(intp.DictStack))
+//@ ensures [C11.end.ok] old(len(intp.DictStack)) > 2 ==> result == nil && len(intp.DictStack) == old(len(intp.DictStack)) - 1
